@@ -7,6 +7,7 @@ mod util;
 mod simple;
 mod val;
 mod lit;
+mod ident;
 
 pub type Handler = fn(&J) -> J;
 
@@ -22,6 +23,7 @@ fn main() {
         "tok" => simple::tok,
         "esc" => simple::esc,
         "lit" => lit::lit,
+        "ident" => ident::ident,
         _ => {
             eprintln!("unknown family {family}");
             std::process::exit(2);
